@@ -1098,6 +1098,10 @@ async def _parse_action_body(
         except ValueError as exc:
             raise HTTPBadRequest(reason="InvalidActionArgumentValue") from exc
 
+    for in_arg in action.in_arguments():
+        if in_arg.name not in kwargs:
+            raise HTTPBadRequest(reason="MissingActionArgument")
+
     return action_name, kwargs
 
 
